@@ -655,7 +655,11 @@ def check_gs_with_ofs(run, rng, kind):
         run.count("B3:random-mps-rejected")
         return False, None
     M = 4 * tm.dim
-    mps.optimize_config.procedure = ofs_procedure([M] * 5, [0.3, 0.1, 0, 0, 0], crit, jw)
+    # short schedules too: the site order may then still change during the LAST sweep, after the optimiser has taken the
+    # snapshot it returns
+    nsw = int(rng.choice([2, 3, 5]))
+    mps.optimize_config.procedure = ofs_procedure([M] * nsw, [0.3, 0.1, 0, 0, 0][:nsw] if nsw > 2 else [0.2, 0], crit, jw)
+    run.count(f"B3:gs:sweeps={nsw}")
     mps.optimize_config.method = "2site"
     mps.optimize_config.algo = str(rng.choice(["direct", "davidson"]))
     L.seed_legacy(rng)
@@ -671,7 +675,7 @@ def check_gs_with_ofs(run, rng, kind):
     emin = float(np.min(energies))
     if emin < w[0] - 1e-8 * scale:
         run.violation(f"optimize_mps+ofs:below-exact:jw={jw}", dict(replay, energies=list(map(float, energies)), exact=float(w[0])))
-    elif abs(emin - w[0]) > 1e-7 * scale:
+    elif abs(emin - w[0]) > 1e-7 * scale and nsw == 5:
         run.violation(f"optimize_mps+ofs:not-converged-at-full-bond:jw={jw}",
                       dict(replay, energies=list(map(float, energies)), exact=float(w[0])))
     order = order_of(res.model, tm)
@@ -701,6 +705,17 @@ def check_gs_with_ofs(run, rng, kind):
             run.violation(f"optimize_mps+ofs:returned-state-norm:jw={jw}", dict(replay, norm=float(np.linalg.norm(got))))
         elif 1 - ov > 1e-5 / min(1.0, gap / scale):
             run.violation(f"optimize_mps+ofs:returned-state:jw={jw}", dict(replay, order=order, overlap=ov, gap=float(gap)))
+    # whatever was reached: the returned state, read in the site order of ITS OWN model, must carry the energy that was
+    # reported for it (its model and its tensors belong together)
+    if not jw:
+        try:
+            e_own = float(np.real(res.expectation(Mpo(res.model))))
+            e_last = float(np.atleast_1d(energies[-1])[0]) if np.ndim(energies[-1]) else float(energies[-1])
+            if abs(e_own - e_last) > 1e-6 * scale and abs(emin - w[0]) <= 1e-7 * scale:
+                run.violation("optimize_mps+ofs:returned-state:energy-in-own-site-order-differs-from-reported",
+                              dict(replay, order=order, energy_in_own_order=e_own, reported=e_last, exact=float(w[0])))
+        except Exception as e:  # noqa
+            run.count("B3:gs:own-order-energy-raised:" + type(e).__name__)
     run.sample(dict(part="B3-gs", kind=kind, jw=jw, order=order, e=emin, exact=float(w[0])))
     return True, ("gs", kind, jw, crit.name, tuple(order))
 
@@ -806,7 +821,7 @@ def search(run, rng, quick):
     nb2 = 108 if quick else 900
     for it in range(nb2):
         note(check_pair_sweeps(run, rng, kinds[it % len(kinds)]))
-    nb3 = 18 if quick else 150
+    nb3 = 36 if quick else 200
     for it in range(nb3):
         note(check_gs_with_ofs(run, rng, kinds[it % len(kinds)]))
         note(check_evolve_with_ofs(run, rng, kinds[(it + 4) % len(kinds)]))
